@@ -313,8 +313,7 @@ class Engine:
             elif kind is None:
                 kind = "child"
         nid = opts.get("nid")
-        if nid is not None and any(r.node_id == nid for r in walk(self.tree).pre):
-            return Plan("unspecified", route + ":duplicate-node_id")
+        dup_nid = nid is not None and any(r.node_id == nid for r in walk(self.tree).pre)
         kw = {}
         if did is not None:
             kw["data_id"] = did
@@ -347,6 +346,10 @@ class Engine:
             ranchor = self.real(anchor)
             call = lambda: ranchor.append_sibling(data, **kw)  # noqa: E731
             res = ("pos", mt.index_of(anchor) + 1)
+        if dup_nid:
+            # a node_id that is already in use: what happens is not documented, but IF the call raises, the tree
+            # must be as it was (C13 evaluates that for "unspecified" plans)
+            return Plan("unspecified", route + ":duplicate-node_id", call=call)
         if res[0] == "unspecified":
             return Plan("unspecified", route + ":" + res[1], call=call)
         collide = mt.has_sibling_id(parent, eff)
@@ -432,6 +435,31 @@ class Engine:
             return n
 
         return Plan("valid", route, call=call, apply=apply)
+
+    def _op_add_node_ids(self, parent_ref, src_ref, which, deep):
+        """<parent>.add(<node>, deep=..., data_id=<the source's> | node_id=<int>): the ID arguments are documented
+        as 'only allowed for single nodes, not for deep copies' (node_id is refused for every node copy)"""
+        route = f"add_node:{which}" + (":deep" if deep else "")
+        mt = self.model
+        parent = self.parent_of(parent_ref)
+        src = self.node(src_ref)
+        if src is None:
+            return Plan("na", route)
+        rparent, rsrc = self.real(parent), self.real(src)
+        kw = {"deep": bool(deep)}
+        if self.typed:
+            kw["kind"] = src.kind
+        if which == "node_id":
+            kw["node_id"] = 9100 + self.steps
+        else:
+            if not deep:
+                return Plan("na", route)  # a shallow copy with the source's own data_id is an ordinary copy
+            kw["data_id"] = src.data_id
+            if src.data_id is None:
+                return Plan("na", route)
+        call = lambda: rparent.add(rsrc, **kw)  # noqa: E731
+        collide = mt.has_sibling_id(parent, src.data_id) or src.parent is parent
+        return Plan("refuse", route + ":id-argument-for-copy", call=call, exc=E_VALUE + E_UNIQUE if collide else E_VALUE)
 
     def _op_copy_to(self, src_ref, target_ref, add_self, before, deep):
         route = "copy_to" + ("" if add_self else ":children") + (":deep" if deep else "")
